@@ -41,6 +41,7 @@ type BinaryEntropyEncoder struct {
 	disposed  bool
 	buffer    []byte
 	index     int
+	hasData   bool // true once at least one byte has been encoded
 }
 
 // NewBinaryEntropyEncoder creates an instance of BinaryEntropyEncoder using the
@@ -112,6 +113,11 @@ func (this *BinaryEntropyEncoder) Write(block []byte) (int, error) {
 	startChunk := 0
 	end := count
 	length := count
+
+	if count > 0 {
+		this.hasData = true
+	}
+
 	err := error(nil)
 
 	if count >= _BINARY_ENTROPY_MAX_CHUNK {
@@ -175,6 +181,12 @@ func (this *BinaryEntropyEncoder) Dispose() {
 	}
 
 	this.disposed = true
+
+	// Nothing was encoded: the decoder will not read anything either
+	if this.hasData == false {
+		return
+	}
+
 	this.bitstream.WriteBits(this.low|_BINARY_MASK_0_24, 56)
 }
 
